@@ -452,6 +452,12 @@ def answer (line : String) : String :=
     | "pair" => match arg 0, arg 1 with
       | some x, some y => s!"{ansLoc x} || {ansLoc y}"
       | _, _ => "bad"
+    | "extpair" => match arg 0, arg 1 with
+      | some x, some y => s!"{ansExt x} || {ansExt y}"
+      | _, _ => "bad"
+    | "lipair" => match arg 0, arg 1 with
+      | some x, some y => s!"{ansLi x} || {ansLi y}"
+      | _, _ => "bad"
     | "loccan" => match arg 0 with
       | some v => ansCan (Locale.canonicalize v)
       | none => "bad"
@@ -606,6 +612,46 @@ def answer (line : String) : String :=
           s!"ok eq={b01 (x == y)} cmp={ordStr (cmpLoc x y)} rcmp={ordStr (cmpLoc y x)} he={b01 (x == y)} se={b01 (x.display == y.display)} lieq={b01 (x.id == y.id)} licmp={ordStr (cmpLi x.id y.id)} xi={renderLi x.id} yi={renderLi y.id}"
         | _, _ => "err"
       | _, _ => "bad"
+    | "route" => match arg 0 with
+      | some v =>
+        match Locale.fromBytes v with
+        | .ok x =>
+          let k := ((a[1]?).bind String.toNat?).getD 0
+          let vs := x.id.variantList
+          let y : Option Locale :=
+            match k with
+            | 0 => some { x with id := x.id.setVariants vs }
+            | 1 => some { x with id := (x.id.clearVariants).setVariants vs }
+            | 2 =>
+              let (l, s, r, vv, e) := x.intoParts
+              (ExtMap.fromBytes e).toOption.map fun em => Locale.fromParts l s r vv (some em)
+            | 3 => (Locale.fromBytes x.display).toOption
+            | 4 => some { (Locale.ofLangId x.toLangId) with ext := x.ext }
+            | 5 =>
+              let u := x.ext.unicode
+              let ops : List Op :=
+                u.attributes.map .removeAttribute ++ u.attributes.reverse.map .setAttribute ++
+                (u.keywords.reverse.map fun kv => [Op.removeKeyword kv.1, Op.setKeyword kv.1 kv.2]).flatten ++
+                (x.ext.transform.tfields.reverse.map fun kv => [Op.removeTField kv.1, Op.setTField kv.1 kv.2]).flatten ++
+                (match x.ext.transform.tlang with
+                  | some tl => [Op.clearTLang, Op.setTLang tl.display]
+                  | none => []) ++
+                [Op.clearTags] ++ x.ext.priv.reverse.map .addTag
+              some (runState Gen.tables x ops)
+            | 6 =>
+              match Language.fromBytes (Language.asStr x.id.language) with
+              | .ok l =>
+                let sc := x.id.script.bind fun s => (Script.fromBytes s).toOption
+                let rg := x.id.region.bind fun s => (Region.fromBytes s).toOption
+                some { x with id := { x.id with language := l, script := sc, region := rg } }
+              | _ => none
+            | _ => some (Locale.fromParts x.id.language x.id.script x.id.region (vs.reverse ++ vs) (some x.ext))
+          match y with
+          | some y => s!"ok eq={b01 (x == y)} cmp={ordStr (cmpLoc x y)} he={b01 (x == y)} se={b01 (x.display == y.display)}"
+          | none => "ok fail"
+        | .err e => errCode e
+        | .panic => "panic"
+      | none => "bad"
     | "eqstr" => match arg 0, arg 1 with
       | some x, some y =>
         match LangId.fromBytes x with
